@@ -174,6 +174,22 @@ def calendar_ring_case(draw):
             "days": 400 if "years" in delay else draw(st.integers(40, 100))}
 
 
+def enum_large_ratio_rings(tier):
+    """a slow and a fast model in a ring resolved by a delay on either link: one update of the slow member is
+    preceded by 1000-4100 updates of the fast one (a daily model coupled to a minutely one)"""
+    def m(n, steps):
+        return {"kind": "model", "name": n, "start": 0, "steps": steps, "ins": ["i0"], "outs": ["o"]}
+
+    for r in ((1001, 1440) if tier == "quick" else (960, 1000, 1001, 1024, 1440, 2049, 4100)):
+        for order in (["M0", "M1"], ["M1", "M0"]):
+            for on_fast in (True, False):
+                d = [["dfix", r + 1]]
+                links = [["M0", "o", d if on_fast else [], "M1", "i0"], ["M1", "o", [] if on_fast else d, "M0", "i0"]]
+                yield {"comps": [m("M0", [r]), m("M1", [1])], "links": links, "order": order, "end": 2 * r + 3, "mode": "suff", "need": r + 1,
+                       "total": r + 1, "ring": 2, "extra": 1, "excluded": ["info:large-step-ratio"], "tick_us": None, "t0": None}
+
+
 def parts():
-    return [Part("calendar_rings", check_calendar_ring, strategy=calendar_ring_case(), budget={"quick": 150, "thorough": 5000}, shrink_budget=100),
+    return [Part("large_ratio_rings_enum", check, enumerate=enum_large_ratio_rings, exhaustive=True),
+            Part("calendar_rings", check_calendar_ring, strategy=calendar_ring_case(), budget={"quick": 150, "thorough": 5000}, shrink_budget=100),
             Part("rings", check, strategy=G.ring_spec(), strategy_thorough=G.ring_spec(max_n=7), budget={"quick": 1400, "thorough": 80000}, fuzz={"thorough": 6000})]
